@@ -30,7 +30,7 @@ BOUNDS = {
     "quick": "B: every outcome sequence of length N<=8 (DDM/EDDM n_threshold in {1,2,3}; STEPD window in {1,2}), labels arbitrary "
              "integers, thresholds universally quantified reals; S: one step from an arbitrary state (DDM, EDDM; symbolic "
              "unbounded n_threshold); STEPD by B only",
-    "thorough": "B: N<=11, n_threshold in {1..4}, STEPD window in {1,2,3}; S as quick",
+    "thorough": "B: N<=10, n_threshold in {1..4}, STEPD window in {1,2,3}; S as quick",
 }
 OUTSIDE = ("sequences longer than N (covered only by the S steps, which use exact real arithmetic instead of IEEE doubles); "
            "the running-deviation recurrence of DDM/EDDM is taken from the tree as part of the specification (the statement "
@@ -228,7 +228,7 @@ def body_stepd_step(ctx, pre, L):
 def jobs(tier):
     q = tier == "quick"
     out = []
-    N = 8 if q else 11
+    N = 8 if q else 10
     for nth in (1, 2, 3) if q else (1, 2, 3, 4):
         out.append(Job(f"ddm-hist-n{nth}", "checks.c05:body_hist", {"det": "DDM", "N": N, "par": nth},
                        # with n_threshold=1 the very first test has zero deviation and always alarms
